@@ -234,6 +234,11 @@ class ChunkTwin(Case):
         blocks = [tuple(b) for b in S.const("blocks")]
         strand, f0 = S.const("strand"), S.const("f0")
         cs, ce = S.const("cs"), S.const("ce")
+        # domain of the known finding F-C05-2 (its own case and witness: c05_cds.CdsSequenceText): a 5'-most exon SHORTER
+        # than the start offset - the frame cleaning then drops a whole extra codon, and everything derived from the
+        # cleaned location (codon lists, EmptyLocation / 'List of intervals must be nonempty' errors) follows it
+        first5 = (blocks[0][1] - blocks[0][0]) if strand == "PLUS" else (blocks[-1][1] - blocks[-1][0])
+        S.assume(not (len(blocks) > 1 and first5 < f0))
         fr = consistent_frames(blocks, strand, f0)
         whole = mk_cds(S, blocks, strand, fr, seq_to_parent(GENOME, seq_id="chr1"))
         chunk = seq_chunk_to_parent(GENOME[cs:ce], "chr1", cs, ce)
